@@ -78,6 +78,8 @@ def schedule(draw: Any, *, max_callers: int = 8, faults: bool = True, big_queue:
         "callers": callers,
         "fates": fates,
     }
+    if case["gwy_id"] == "18:000730" and draw(st.booleans()):
+        case["id_unknown"] = True  # the transport reports no active gateway id at all (None)
     nf = draw(st.integers(0, 4))
     if nf:
         case["foreign"] = [{"t": draw(st.sampled_from(CALL_TIMES)) + draw(st.sampled_from(DELAYS)), "of": draw(st.integers(0, n - 1)),
@@ -130,6 +132,8 @@ def classify(case: dict) -> list[str]:
         out.append("sched:disconnect-or-write-failure")
     if any(f["kind"] in ("pause", "resume") for f in case.get("faults", [])):
         out.append("sched:pause")
+    if case.get("id_unknown"):
+        out.append("sched:gwy-id-unknown")
     if len(case["callers"]) >= 3:
         out.append("sched:3+callers")
     if len(case["callers"]) >= 9:
